@@ -4,10 +4,10 @@
 //! calls agree, as for any function), fresh values for anything else, and counts its calls.
 use ckc_rs::cards::five::Five;
 
-pub static mut EXPECT: [[u32; 7]; 2] = [[0; 7]; 2];
-pub static mut NSLOT: [usize; 2] = [0; 2];
-pub static mut VAL: [u16; 2] = [0; 2];
-pub static mut HAND: [[u32; 5]; 2] = [[0; 5]; 2];
+pub static mut EXPECT: [[u32; 7]; 4] = [[0; 7]; 4];
+pub static mut NSLOT: [usize; 4] = [0; 4];
+pub static mut VAL: [u16; 4] = [0; 4];
+pub static mut HAND: [[u32; 5]; 4] = [[0; 5]; 4];
 pub static mut NEXP: usize = 0;
 pub static mut CALLS: u32 = 0;
 pub static mut VVAL: u16 = 0;
@@ -42,6 +42,17 @@ pub fn expect2(a0: &[u32], val0: u16, hand0: [u32; 5], a1: &[u32], val1: u16, ha
     }
 }
 
+/// k-th expectation of a longer history (k < 4); call `begin(n)` first
+pub fn begin(n: usize) {
+    unsafe {
+        NEXP = n;
+        CALLS = 0;
+    }
+}
+pub fn expect_k(k: usize, a: &[u32], val: u16, hand: [u32; 5]) {
+    set(k, a, val, hand);
+}
+
 pub fn calls() -> u32 {
     unsafe { CALLS }
 }
@@ -51,7 +62,7 @@ fn answer(a: &[u32]) -> (u16, Five) {
     unsafe {
         CALLS += 1;
         let mut e = 0;
-        while e < 2 {
+        while e < 4 {
             if e < NEXP {
                 let mut same = a.len() == NSLOT[e];
                 let mut i = 0;
